@@ -29,6 +29,7 @@ type GenCfg struct {
 	Requires    []string // module strings that may be required
 	FilePrefix  string   // prefix for unique names
 	NoGlobalWrites bool
+	NoLongArgs  bool // no long-bracket string call arguments (column bookkeeping is C04's business)
 }
 
 func DefaultGenCfg() GenCfg {
@@ -53,6 +54,9 @@ type Gen struct {
 	depth    int
 	uniq     int
 	labelN   int
+	neverWrite map[string]bool
+	noFunc   int // >0: no function literals (inside assignment targets)
+	Budget   int // soft cap on emitted tokens (0 = none)
 }
 
 func NewGen(r *Rng, cfg GenCfg) *Gen {
@@ -93,6 +97,15 @@ func (g *Gen) visible() []string {
 	return out
 }
 
+func (g *Gen) isVisibleLocal(n string) bool {
+	for _, v := range g.visible() {
+		if v == n {
+			return true
+		}
+	}
+	return false
+}
+
 func (g *Gen) someVar() string {
 	vis := g.visible()
 	k := g.r.Intn(10)
@@ -121,7 +134,7 @@ func (g *Gen) assignable() string {
 		}
 		if !g.cfg.NoGlobalWrites && len(g.cfg.GlobalPool) > 0 {
 			n := g.r.Pick(g.cfg.GlobalPool)
-			if g.consts[n] == 0 {
+			if g.consts[n] == 0 && !g.neverWrite[n] {
 				return n
 			}
 		}
@@ -167,8 +180,10 @@ func (g *Gen) literal() string {
 var binops53 = []string{"+", "-", "*", "/", "%", "^", "..", "==", "~=", "<", "<=", ">", ">=", "and", "or"}
 var binops54 = []string{"//", "&", "|", "~", "<<", ">>"}
 
+func (g *Gen) over() bool { return g.Budget > 0 && len(g.toks) > g.Budget }
+
 func (g *Gen) exp(d int) {
-	if d <= 0 {
+	if d <= 0 || g.over() {
 		if g.r.Bool() {
 			g.emit(g.literal())
 		} else {
@@ -266,7 +281,11 @@ func (g *Gen) suffix(d int, call bool) {
 func (g *Gen) args(d int) {
 	switch g.r.Intn(8) {
 	case 0:
-		g.emit(g.r.Pick([]string{`"str"`, `'s'`, `[[long arg]]`}))
+		if g.cfg.NoLongArgs {
+			g.emit(g.r.Pick([]string{`"str"`, `'s'`}))
+		} else {
+			g.emit(g.r.Pick([]string{`"str"`, `'s'`, `[[long arg]]`}))
+		}
 	case 1:
 		g.table(d)
 	default:
@@ -312,6 +331,10 @@ func (g *Gen) table(d int) {
 }
 
 func (g *Gen) function(d int) {
+	if g.noFunc > 0 {
+		g.emit(g.literal())
+		return
+	}
 	g.emit("function")
 	g.funcbody(false)
 }
@@ -368,6 +391,9 @@ func (g *Gen) blockBody(allowRet bool) {
 	n := g.r.Range(0, g.cfg.Stats)
 	if g.depth >= g.cfg.MaxDepth {
 		n = g.r.Range(0, 2)
+	}
+	if g.over() {
+		n = 0
 	}
 	for i := 0; i < n; i++ {
 		g.stat()
@@ -469,8 +495,12 @@ func (g *Gen) stat() {
 				g.emit(",")
 			}
 			if g.r.Chance(1, 3) {
+				// no function literals inside assignment targets: LuaHelper does not analyse them there and
+				// real programs do not write them (not explored, see DESIGN C05)
+				g.noFunc++
 				g.emit(g.someVar())
 				g.suffix(ed-1, false)
+				g.noFunc--
 				// ensure the last suffix is an index, not a call
 				g.emit(".", "fld")
 			} else {
@@ -591,8 +621,9 @@ func (g *Gen) stat() {
 	case k == 18 && deep: // function statement
 		g.emit("function")
 		method := false
-		if g.cfg.GlobalFuncs && g.r.Chance(1, 2) && !g.cfg.NoGlobalWrites {
-			g.emit(g.r.Pick(g.cfg.GlobalPool))
+		gname := g.r.Pick(g.cfg.GlobalPool)
+		if g.cfg.GlobalFuncs && g.r.Chance(1, 2) && !g.cfg.NoGlobalWrites && !g.neverWrite[gname] && g.consts[gname] == 0 && !g.isVisibleLocal(gname) {
+			g.emit(gname)
 		} else {
 			g.emit(g.someVar())
 			n := g.r.Range(1, 2)
@@ -682,6 +713,7 @@ type Trivia struct {
 	LineEnd   string // "\n", "\r\n", "\r"
 	Rich      bool   // random tabs, comments, long comments, blank lines between tokens
 	Tight     bool   // omit the space where two tokens cannot merge
+	Pretty    bool   // conventional formatting: a.b, a:m(x), t[1], f(x), {k = v}, -x
 	Indent    bool
 }
 
@@ -740,6 +772,7 @@ func Render(r *Rng, toks []string, tv Trivia) string {
 	}
 	var sb strings.Builder
 	prev := ""
+	prevprev := ""
 	indent := 0
 	atLineStart := true
 	for _, t := range toks {
@@ -747,18 +780,21 @@ func Render(r *Rng, toks []string, tv Trivia) string {
 			sb.WriteString(le)
 			atLineStart = true
 			prev = ""
+			prevprev = ""
 			continue
 		}
 		sep := " "
+		if tv.Indent && (t == "end" || t == "until" || t == "else" || t == "elseif" || t == "}") && indent > 0 {
+			indent--
+		}
 		if atLineStart {
 			sep = ""
 			if tv.Indent {
-				if t == "end" || t == "until" || t == "else" || t == "elseif" || t == "}" {
-					if indent > 0 {
-						indent--
-					}
-				}
 				sep = strings.Repeat("  ", indent)
+			}
+		} else if tv.Pretty {
+			if !prettySpace(prevprev, prev, t) && !needsSpace(prev, t) {
+				sep = ""
 			}
 		} else if tv.Tight && !needsSpace(prev, t) && r.Bool() {
 			sep = ""
@@ -791,16 +827,62 @@ func Render(r *Rng, toks []string, tv Trivia) string {
 		sb.WriteString(sep)
 		// multi-line tokens written with \n get the chosen line ending only in trivia; token text is kept verbatim
 		sb.WriteString(t)
+		prevprev = prev
 		prev = t
 		atLineStart = false
 		if tv.Indent {
 			switch t {
-			case "do", "then", "repeat", "else", "{":
+			case "do", "then", "repeat", "else", "{", "function":
 				indent++
-			case "function":
-				indent++
+			}
+			if indent > 12 {
+				indent = 12
 			}
 		}
 	}
 	return sb.String()
+}
+
+func isWordTok(t string) bool { return t != "" && (isAlpha(t[0]) || isDigit(t[0])) }
+
+func isValueEnd(t string) bool {
+	if t == "" {
+		return false
+	}
+	if luaKeywords[t] {
+		return t == "end" || t == "nil" || t == "true" || t == "false"
+	}
+	c := t[len(t)-1]
+	return isAlnum(c) || c == ')' || c == ']' || c == '}' || c == '"' || c == '\'' || t == "..."
+}
+
+// prettySpace decides whether conventional formatting puts a space between prev and t.
+func prettySpace(prevprev, prev, t string) bool {
+	switch t {
+	case ".", ":":
+		return false
+	case ",", ";", ")", "]":
+		return false
+	case "(":
+		// call or function literal: no space; after keywords/operators: space
+		if prev == "function" {
+			return false
+		}
+		return !(isValueEnd(prev) && !luaKeywords[prev])
+	case "[":
+		return !(isValueEnd(prev) && !luaKeywords[prev])
+	}
+	switch prev {
+	case ".", ":", "(", "[", "::":
+		return false
+	case "-", "#", "~":
+		// unary when the token before it cannot end a value
+		if !isValueEnd(prevprev) || (luaKeywords[prevprev] && prevprev != "end" && prevprev != "nil" && prevprev != "true" && prevprev != "false") {
+			return false
+		}
+	}
+	if t == "::" && !luaKeywords[prev] && isWordTok(prev) {
+		return false
+	}
+	return true
 }
